@@ -26,6 +26,7 @@ from ..doubles import Wire, WireIn, WireOut, WirePort, msg_tag
 from ..mon import lines, sched
 
 ID = 'C10'
+ANCHORS = ['mido.ports', 'mido.backends._parser_queue']
 LEVEL = 'exploration'
 RULE = ('8 programs of 3-4 threads (1-2 senders, 1-2 receivers) over WirePort loopback, EchoPort, '
         'IOPort(WireIn, WireOut), MultiPort fan-out and fan-in, two iter_pending consumers, '
